@@ -8,7 +8,7 @@ EXTENDS MC_RecGen, Json
 VARIABLES hist, printed
 SimInit == Init /\ hist = <<>> /\ printed = FALSE
 SimStep == /\ ~Done /\ \E t \in Threads : Step(t)
-           /\ hist' = IF last'.op \in {"contains", "set", "get"} THEN Append(hist, last') ELSE hist
+           /\ hist' = IF last'.op \in {"contains", "lookup", "set", "get"} THEN Append(hist, last') ELSE hist
            /\ UNCHANGED printed
 SimEmit == /\ Done /\ ~printed
            /\ PrintT(ToJson([sound |-> CacheSound /\ ResultSound, sched |-> hist]))
